@@ -1314,7 +1314,9 @@ impl Drop for Debugger {
 
 /// Read N bytes from `PID` process.
 pub fn read_memory_by_pid(pid: Pid, addr: usize, read_n: usize) -> Result<Vec<u8>, nix::Error> {
-    let mut result = Vec::with_capacity(read_n);
+    // `read_n` may come straight from the user or from (possibly garbage) debugee memory:
+    // never allocate on its word, let the buffer grow with what is actually read
+    let mut result = Vec::with_capacity(read_n.min(4096));
 
     let single_read_size = mem::size_of::<c_long>();
 
